@@ -27,12 +27,17 @@ ASSUMPTIONS = ["supported power controls: AT4 = toggle/off/on, AT5 adds away/sle
 
 
 def bounds(tier):
-    return {"temperature_grid": "j/20 for j in [-200,1200]", "damper": "[-5,105]", "mode_bitmaps": "all 32", "fan_bitmaps": "all 128 (AT4) / 256 (AT5)",
+    return {"temperature_grid": "j/100 for j in [-1000,6000] (0.01 degC, ties included)", "damper": "[-5,105]", "mode_bitmaps": "all 32", "fan_bitmaps": "all 128 (AT4) / 256 (AT5)",
             "reported_timers": "all (disabled, hour 0..23, minute 0..59) for both timers"}
 
 
 def instances(tier):
-    return apicmd.instances(tier)
+    out = []
+    for p in apicmd.instances(tier):
+        if p["call"] in ("ac_temp", "zone_temp"):
+            p = dict(p, grid=100)        # a finer grid than C04's 0.05 degC: 0.01 degC, ties included
+        out.append(p)
+    return out
 
 
 def expect_labels(tier):
@@ -83,15 +88,25 @@ def run(ctx, p):
     ctx.check(len(out["frames"]) == 1, "accepted_writes_one_frame", detail=dict(detail, frames=len(out["frames"])))
     ctx.check(not out["failures"], "accepted_writes_one_frame", detail="unhandled exception")
     data = out["frames"][0]["data"]
-    if call == "ac_temp":
-        j = args["j"]
+    if call == "zone_temp":
+        j, D = args["j"], args["D"]
+        if gen == 4:
+            k = r4.group_control(data)["value"]
+            ok = sym_and(k * D - j <= D // 2, j - k * D <= D // 2)          # rounded to 1 degC
+        else:
+            K = r5.zone_control_record(data[8:12])["value"] + 100
+            ok = sym_and(K * D - j * 10 <= D // 2, j * 10 - K * D <= D // 2)  # rounded to 0.1 degC
+        ctx.check(ok, "setpoint_rounded_and_clamped", detail=detail)
+    elif call == "ac_temp":
+        j, D = args["j"], args["D"]
+        H = D // 2
         if gen == 4:
             lo, hi = env["limits"]
             k = r4.ac_control(data)["sp_value"]
             ok = sym_and(r4.ac_control(data)["sp_type"] == 1, k >= lo, k <= hi,
-                         sym_implies(k > lo, k * 20 - j <= 10), sym_implies(k < hi, j - k * 20 <= 10),
+                         sym_implies(k > lo, k * D - j <= H), sym_implies(k < hi, j - k * D <= H),
                          # unclamped requests: rounded to the 1 degC resolution
-                         sym_implies(sym_and(j >= lo * 20, j <= hi * 20), sym_and(k * 20 - j <= 10, j - k * 20 <= 10)))
+                         sym_implies(sym_and(j >= lo * D, j <= hi * D), sym_and(k * D - j <= H, j - k * D <= H)))
         else:
             from sx.values import sym_ite
             lc, hc, lh, hh = env["limits"]
@@ -100,8 +115,8 @@ def run(ctx, p):
             hi = sym_ite(mc == 1, hh, sym_ite(mc == 4, hc, sym_ite(hh >= hc, hh, hc))) * 10
             c = r5.ac_control_record(data[8:12])
             K = c["sp_value"] + 100
-            ok = sym_and(c["sp_control"] == 0x40, K >= lo, K <= hi, sym_implies(K > lo, K * 2 - j <= 1), sym_implies(K < hi, j - K * 2 <= 1),
-                         sym_implies(sym_and(j * 1 >= lo * 2, j * 1 <= hi * 2), sym_and(K * 2 - j <= 1, j - K * 2 <= 1)))
+            ok = sym_and(c["sp_control"] == 0x40, K >= lo, K <= hi, sym_implies(K > lo, K * D - j * 10 <= H), sym_implies(K < hi, j * 10 - K * D <= H),
+                         sym_implies(sym_and(j * 10 >= lo * D, j * 10 <= hi * D), sym_and(K * D - j * 10 <= H, j * 10 - K * D <= H)))
         ctx.check(ok, "setpoint_rounded_and_clamped", detail=detail)
     else:
         ctx.reach("setpoint_rounded_and_clamped")
